@@ -151,7 +151,6 @@ def evaluateU (re : RegexOracle) : Expr → Opts → Any → Out
     match getValue o d sel.path with
     | .error => .err false
     | .unmodelled => .unmodelled
-    | .panic => .panic
     | .absent => .val (op == .all)
     | .present v =>
       match v with
